@@ -251,9 +251,11 @@ class ArrayTemplate(Contract):
     target = "canopen.objectdictionary:ODArray.__getitem__"
     props = ("C20", "C08")
     exits = ("return", "raise:KeyError")
+    cases = {"sample-values": False, "any-limits-and-default": True}
 
     def setup(self, w, case):
-        tmpl = w.obj(OD, data_type=0x03, unit="mm", factor=0.1, min=-5, max=500, default=7, access_type="ro", description="d",
+        lo, hi, dflt = (w.int("min", -32768, 32767), w.int("max", -32768, 32767), w.int("default", -32768, 32767)) if case else (-5, 500, 7)
+        tmpl = w.obj(OD, data_type=0x03, unit="mm", factor=0.1, min=lo, max=hi, default=dflt, access_type="ro", description="d",
                      value_descriptions=w.dict({1: "one"}), bit_definitions=w.dict({"b": w.list([0, 1])}), storage_location="RAM",
                      name="Element", index=0x2100, subindex=1, parent=None, value=None, relative=False, pdo_mappable=False)
         arr = w.obj("canopen.objectdictionary:ODArray", name="List", index=0x2100, subindices=w.dict({1: tmpl}),
